@@ -7,6 +7,7 @@ package main
 // "plain" / "cb" (kv defaults: int keys, string values, LWW; cb adds OnConflictMerged).
 
 import (
+	"encoding/json"
 	"bufio"
 	"context"
 	"fmt"
@@ -248,8 +249,9 @@ type faultSpec struct {
 	kind  string // L G P D
 	class string // c m n
 	name  string // canonical (#k / %k) or "*"
-	occ   int
-	out   int // fErr / fGone
+	occ    int
+	out    int  // fErr / fGone
+	sticky bool // also every later matching request
 }
 
 var kindNum = map[string]int{"L": 0, "G": 1, "P": 2, "D": 3}
@@ -289,7 +291,7 @@ func (w *l1world) installFaults(fs []faultSpec, o *tw) {
 					continue
 				}
 			}
-			if counts[i] == f.occ && res == fOK {
+			if (counts[i] == f.occ || (f.sticky && counts[i] > f.occ)) && res == fOK {
 				res = f.out
 				w.fired++
 			}
@@ -303,15 +305,23 @@ func (w *l1world) installFaults(fs []faultSpec, o *tw) {
 		o.s(f.class)
 		o.s(f.name)
 		o.i(f.occ)
-		if f.out == fGone {
+		switch {
+		case f.out == fGone && f.sticky:
+			o.s("G")
+		case f.out == fGone:
 			o.s("g")
-		} else {
+		case f.sticky:
+			o.s("E")
+		default:
 			o.s("e")
 		}
 	}
 }
 
 func okerr(out *tw, err error) {
+	if err != nil && os.Getenv("VERIF_TRACE") != "" {
+		fmt.Fprintf(os.Stderr, "  error: %v\n", err)
+	}
 	if err != nil {
 		out.s("err")
 	} else {
@@ -520,6 +530,40 @@ func (w *l1world) exec(op *kop, hstats map[string]int) (known string, ok bool) {
 		w.lastDeleted = strings.Count(mo.String(), " D")
 		out.sb.WriteString(mo.String())
 		hstats["delhist"]++
+	case "walk":
+		// every retained version (under current/, or created after the cutoff) must be readable in
+		// full: read-only open of that version alone and a scan of all its entries
+		o.s("walk")
+		o.z(op.before)
+		bad := 0
+		type rootT struct {
+			Created *time.Time
+		}
+		check := func(name string) {
+			vdb, err := kv.Open(ctx, fromSnapshot(w.s3.snapshot()), w.cfg(), kv.OpenOptions{ReadOnly: true, OnlyVersions: []string{name}}, time.Unix(0, baseTime))
+			if err != nil {
+				bad++
+				return
+			}
+			var sink tw
+			if catch(func() { err = w.dump(&sink, vdb) }) || err != nil {
+				bad++
+			}
+		}
+		for _, name := range w.s3.keys(l1Prefix + "/root/current/") {
+			check(name)
+		}
+		for _, name := range w.s3.keys(l1Prefix + "/root/merged/") {
+			var r rootT
+			raw := w.s3.snapshot()[l1Prefix+"/root/merged/"+name]
+			if json.Unmarshal(raw, &r) != nil || r.Created == nil || r.Created.UnixNano() > op.before {
+				check(name)
+			}
+		}
+		out.s(";")
+		out.s("W")
+		out.i(bad)
+		hstats["walk"]++
 	case "diff":
 		db2 := w.hs[op.h2]
 		if db2 == nil {
@@ -788,14 +832,57 @@ func runL1History(g *gen, mode string, nops int, hstats map[string]int, faulty, 
 	nextH := 0
 	lat := func() int64 { return baseTime + int64(g.r.Intn(8))*10 }
 	key := func() sval { return keys[g.r.Intn(len(keys))] }
-	for step := 0; step < nops; step++ {
+	var delTimes []int64
+	ending := false
+	// scripted openings: several writers that never saw each other (k unmerged current versions)
+	var script []*kop
+	if g.r.Intn(4) == 0 {
+		k := 3 + g.r.Intn(2)
+		for i := 0; i < k; i++ {
+			script = append(script, &kop{kind: "open", h: nextH + i, when: baseTime - 3000000000 + int64(i)*1000000000, seed: g.r.Int63n(1000000)})
+		}
+		for i := 0; i < k; i++ {
+			op := &kop{kind: "set", h: nextH + i, key: keys[i%len(keys)], when: baseTime + int64(i)*10}
+			if mode == "rows" {
+				op.row = g.row(ncols, true)
+			} else {
+				op.pval = int64(g.r.Intn(50))
+			}
+			script = append(script, op, &kop{kind: "commit", h: nextH + i})
+		}
+		nextH += k
+		hstats["script_fanin"]++
+	}
+	for step := 0; step < nops+len(script); step++ {
 		choice := g.r.Intn(100)
 		if len(live) == 0 {
 			choice = 0
 		}
+		if len(script) > 0 {
+			choice = 1000
+		} else if ending {
+			break
+		}
 		pick := func() int { return live[g.r.Intn(len(live))] }
 		op := &kop{}
+		if choice < 100 && len(live) > 0 && mode != "rows" && !crashy && g.r.Intn(14) == 0 {
+			// empty the table through this handle, commit, and delete history with a cutoff long
+			// before every version: nothing may be deleted, in particular not the current version
+			h := pick()
+			t := baseTime + 90
+			for _, k := range keys {
+				script = append(script, &kop{kind: "tomb", h: h, key: k, when: t})
+			}
+			script = append(script, &kop{kind: "rmtomb", h: h, before: t + 5}, &kop{kind: "commit", h: h},
+				&kop{kind: "delhist", h: h, before: baseTime - 9000000000}, &kop{kind: "list"})
+			hstats["script_empty_current"]++
+			choice = 1000
+			ending = true // merges with emptied versions are outside the model: the history ends here
+		}
 		switch {
+		case choice == 1000:
+			op = script[0]
+			script = script[1:]
 		case choice < 14:
 			op.kind = "open"
 			op.h = nextH
@@ -817,6 +904,9 @@ func runL1History(g *gen, mode string, nops int, hstats map[string]int, faulty, 
 				op.row = g.row(ncols, g.r.Intn(4) > 0)
 			} else {
 				op.pval = int64(g.r.Intn(50))
+				if g.r.Intn(4) == 0 {
+					op.kind = "tomb" // tombstones of one key at different times meet in merges
+				}
 			}
 
 		case choice < 50:
@@ -848,6 +938,10 @@ func runL1History(g *gen, mode string, nops int, hstats map[string]int, faulty, 
 				op.kind = "vacuum"
 				if g.r.Intn(2) == 0 {
 					op.before = lat() + int64(g.r.Intn(3)-1)
+					if len(delTimes) > 0 {
+						// exactly at, just before, just after the time of a delete
+						op.before = delTimes[g.r.Intn(len(delTimes))] + int64(g.r.Intn(3)-1)
+					}
 				}
 			}
 		case choice < 93:
@@ -867,6 +961,9 @@ func runL1History(g *gen, mode string, nops int, hstats map[string]int, faulty, 
 				op.pval = int64(sub.r.Intn(50))
 			}
 		}
+		if op.kind == "set" && mode == "rows" && op.row.del {
+			delTimes = append(delTimes, op.when+op.row.doff)
+		}
 		if op.kind == "rmtomb" && w.crashy {
 			// purging tombstones voids "a successor contains its parents" (documented
 			// precondition of RemoveTombstones); purges are the subject of C09/C10
@@ -883,23 +980,35 @@ func runL1History(g *gen, mode string, nops int, hstats map[string]int, faulty, 
 			var menu []faultSpec
 			switch op.kind {
 			case "open":
-				menu = []faultSpec{{"L", "c", "*", 0, fErr}, {"G", "c", "*", g.r.Intn(3), fErr}, {"G", "c", "*", g.r.Intn(3), fGone},
-					{"G", "n", "*", g.r.Intn(5), fErr}, {"G", "n", "*", g.r.Intn(5), fGone}, {"P", "n", "*", 0, fErr}, {"P", "c", "*", 0, fErr},
-					{"P", "m", "*", g.r.Intn(2), fErr}, {"D", "c", "*", g.r.Intn(2), fErr}, {"G", "m", "*", g.r.Intn(2), fErr}}
+				// node GETs: how often mast re-reads a root during a merge depends on the shapes of the
+				// two trees, so a node fault is aimed at an object — its first read (the check when the
+				// version is loaded) or every read after the first (clone, merge walk)
+				menu = []faultSpec{{"L", "c", "*", 0, fErr, false}, {"G", "c", "*", g.r.Intn(3), fErr, false}, {"G", "c", "*", g.r.Intn(3), fGone, false},
+					{"P", "n", "*", 0, fErr, false}, {"P", "c", "*", 0, fErr, false},
+					{"P", "m", "*", g.r.Intn(2), fErr, false}, {"D", "c", "*", g.r.Intn(2), fErr, false}, {"G", "m", "*", g.r.Intn(2), fErr, false}}
+				if n := len(w.nn.m); n > 0 {
+					for k := 0; k < 3; k++ {
+						nd := "%" + strconv.Itoa(1+g.r.Intn(n))
+						menu = append(menu, faultSpec{"G", "n", nd, 0, []int{fErr, fGone}[g.r.Intn(2)], false},
+							faultSpec{"G", "n", nd, 1, []int{fErr, fGone}[g.r.Intn(2)], true})
+					}
+				}
 			case "commit":
-				menu = []faultSpec{{"P", "n", "*", 0, fErr}, {"P", "c", "*", 0, fErr}, {"P", "m", "*", g.r.Intn(2), fErr}, {"D", "c", "*", g.r.Intn(2), fErr}}
-			case "delhist":
+				menu = []faultSpec{{"P", "n", "*", 0, fErr, false}, {"P", "c", "*", 0, fErr, false}, {"P", "m", "*", g.r.Intn(2), fErr, false}, {"D", "c", "*", g.r.Intn(2), fErr, false}}
+			case "delhist", "vacuum":
 				// history deletion visits versions in map-iteration order: a fault keyed by "the n-th
 				// request" would hit different objects in the implementation and in the model, so
 				// faults are keyed by object (its n-th request), or hit the whole operation
-				menu = []faultSpec{{"L", "c", "*", 0, fErr}, {"D", "c", "*", 0, fErr}}
+				menu = []faultSpec{{"L", "c", "*", 0, fErr, false}, {"D", "c", "*", 0, fErr, false}}
 				if len(known) > 0 {
 					v := w.nm.nm(known[g.r.Intn(len(known))])
-					menu = append(menu, faultSpec{"G", "m", v, g.r.Intn(2), fErr}, faultSpec{"G", "c", v, 0, fErr}, faultSpec{"D", "m", v, 0, fErr})
+					menu = append(menu, faultSpec{"G", "m", v, g.r.Intn(2), fErr, false}, faultSpec{"G", "c", v, 0, fErr, false})
 				}
-				if n := len(w.nn.m); n > 0 {
+				if n := len(w.nn.m); n > 0 && op.kind == "delhist" {
+					// (Vacuum first scans the table through a cursor, which re-reads the root node: reads
+					// the model's in-memory tree does not issue; node faults only for plain history deletion)
 					nd := "%" + strconv.Itoa(1+g.r.Intn(n))
-					menu = append(menu, faultSpec{"G", "n", nd, g.r.Intn(3), fErr}, faultSpec{"D", "n", nd, 0, fErr})
+					menu = append(menu, faultSpec{"G", "n", nd, 0, fErr, false}, faultSpec{"G", "n", nd, 0, fErr, true})
 				}
 			}
 			if len(menu) > 0 {
@@ -933,6 +1042,9 @@ func runL1History(g *gen, mode string, nops int, hstats map[string]int, faulty, 
 		}
 		if kn != "" {
 			known = append(known, kn)
+		}
+		if op.kind == "delhist" || op.kind == "vacuum" {
+			w.exec(&kop{kind: "walk", before: op.before}, hstats)
 		}
 		if (op.kind == "delhist" || op.kind == "vacuum") && w.lastDeleted > 0 {
 			// other handles may now point at deleted objects (documented effect of
@@ -969,6 +1081,9 @@ func runL1(seed int64, n int, dir string, modes []string, faulty, crashy bool) e
 	for c := 1; c <= n; c++ {
 		mode := modes[g.r.Intn(len(modes))]
 		nops := 6 + g.r.Intn(30)
+		if os.Getenv("VERIF_TRACE") != "" {
+			fmt.Fprintf(os.Stderr, "CASE next\n")
+		}
 		in, out := runL1History(g, mode, nops, stats, faulty, crashy)
 		fmt.Fprintf(cw, "%d kvhist%s\n", c, in)
 		fmt.Fprintf(iw, "%d%s\n", c, out)
